@@ -1168,6 +1168,17 @@ def replay_generic(rep: dict) -> int:
             got = BasicDecoder(ty).decode(val)
         elif entry == "codec_roundtrip":
             got = BasicDecoder(ty).decode(BasicEncoder(ty).encode(val))
+        elif entry in ("codec_encode_as_dict", "codec_decode_as_dict", "codec_roundtrip_as_dict"):
+            from mashumaro.dialect import Dialect as _Dialect
+
+            class _AsDict(_Dialect):
+                namedtuple_as_dict = True
+            if entry == "codec_encode_as_dict":
+                got = BasicEncoder(ty, default_dialect=_AsDict).encode(val)
+            elif entry == "codec_decode_as_dict":
+                got = BasicDecoder(ty, default_dialect=_AsDict).decode(val)
+            else:
+                got = BasicDecoder(ty, default_dialect=_AsDict).decode(BasicEncoder(ty, default_dialect=_AsDict).encode(val))
         elif entry == "mixin_to_dict":
             got = val.to_dict()
         elif entry == "mixin_from_dict":
